@@ -38,8 +38,8 @@ CFG = {
                   "emitted field is a well-formed CBOR item (C09_slices_sound); not proved (tested on every case): the slicing of the outer "
                   "transaction array / body map, and that the Gallina Blake2b-256 equals the library's. Sub-builder internals (redeemer tag/index assignment, ordering) are property C10: the model starts from the lists "
                   "the sub-builders' getters return. A hash computed BEFORE the last script item was added is outside the statement "
-                  "(C09_stale_hash_not_detected shows build_tx does not notice); no redeemers together with a legacy array container or with a "
-                  "non-empty cost-model table is outside the helper statement (no valid transaction is in that class).",
+                  "(C09_stale_hash_not_detected shows build_tx does not notice); the helper with neither redeemers nor datums is outside the helper "
+                  "statement (the ledger then has no script_data_hash); datums without redeemers are inside it (A0 | datums | A0 for any container form and table).",
     "level": "proof",
     "theorems": ["C09_preimage_spec", "C09_preimage_spec_gen", "C09_preimage_refuted_dup_length", "C09_preimage_refuted_empty_datums",
                  "C09_views_canonical", "C09_views_only_used", "C09_same_bytes", "C09_same_bytes_history", "C09_calc_preimage",
